@@ -117,6 +117,8 @@ type State struct {
 	yields []string  // vYield ids granted on this path
 	uf     bool      // an uninterpreted-function stub influenced this path
 	lastNow *Term
+	preemptions int
+	atPreempt   bool
 }
 
 type ndRec struct {
@@ -154,6 +156,9 @@ type Machine struct {
 	curSt    *State
 	hpkg     *ssa.Package
 	skipGo   []string
+	preemptLock bool
+	preemptBound int
+	preemptAt   []string
 	replace  map[string]string
 	curIn    ssa.Instruction
 }
@@ -193,7 +198,7 @@ func (s *State) clone() *State {
 	n.cur = s.cur
 	n.gs = make([]*G, len(s.gs))
 	for i, g := range s.gs {
-		ng := &G{id: g.id, done: g.done, daemon: g.daemon}
+		ng := &G{id: g.id, done: g.done, daemon: g.daemon, lockYield: g.lockYield}
 		if i == s.cur {
 			ng.frames = n.frames
 		} else {
@@ -216,6 +221,8 @@ func (s *State) clone() *State {
 	n.yields = append([]string(nil), s.yields...)
 	n.uf = s.uf
 	n.lastNow = s.lastNow
+	n.preemptions = s.preemptions
+	n.atPreempt = s.atPreempt
 	n.pc = append([]*Term(nil), s.pc...)
 	n.reached = map[string]bool{}
 	for k := range s.reached {
